@@ -927,6 +927,32 @@ func c19RoundTrips(c *Ctx) {
 					}
 				}
 			}
+			// parameters the script function does not name (blank) still take their argument; natives called as statements
+			// of a switch clause (with and without results) leave nothing behind
+			var misc []int64
+			if err == nil {
+				nlog := 0
+				vm2.Set("main.note0", goat.NewFunc(1, 0, func(vm *goat.VM, args []goat.Value) { nlog += args[0].Int() }))
+				vm2.Set("main.note1", goat.NewFunc(1, 1, func(vm *goat.VM, args []goat.Value) goat.Value { nlog += args[0].Int(); return goat.Int(1000 + args[0].Int()) }))
+				_, err = vm2.Eval(fstest.MapFS{}, "misc.go", "func pick(_ string, _ int, v int, _ bool) int {\n\tw := v\n\treturn w\n}\nfunc pos(_, _ int, c int) int {\n\treturn c + 1\n}\nfunc inCase(k int) int {\n\tr := 7\n\tswitch k {\n\tcase 1:\n\t\tnote0(10)\n\tcase 2:\n\t\tnote1(20)\n\t\tnote0(1)\n\tdefault:\n\t\tnote1(30)\n\t}\n\treturn r + k\n}\n")
+				for _, cl := range []struct {
+					fn   string
+					args []goat.Value
+				}{{"main.pick", []goat.Value{goat.String("s"), goat.Int(7), goat.Int(42), goat.Bool(true)}}, {"main.pos", []goat.Value{goat.Int(11), goat.Int(12), goat.Int(13)}},
+					{"main.inCase", []goat.Value{goat.Int(1)}}, {"main.inCase", []goat.Value{goat.Int(2)}}, {"main.inCase", []goat.Value{goat.Int(3)}}} {
+					if err == nil {
+						var rets []goat.Value
+						rets, err = vm2.Call(cl.fn, 1, cl.args...)
+						if err == nil {
+							misc = append(misc, int64(rets[0].Int()))
+						}
+					}
+				}
+				misc = append(misc, int64(nlog))
+			}
+			if err == nil {
+				ids = append(ids, map[string]any{"kind": "Call.blankParams+caseStatements", "x": []int64{42, 14, 8, 9, 10, 61}, "got": misc})
+			}
 			// the slice of parameters handed to Call belongs to the caller: it is neither changed nor retained (it has spare
 			// capacity here, as a slice built by append usually has), and the results of one call survive the next call
 			var clob []int64
